@@ -185,17 +185,22 @@ class SymtableCodeGen(AbstractCodeGen):
             self._postponedSyms[symbol] = (parents, symProps)
 
     def regPostponedSyms(self):
-        regedSyms = []
-        for sym, val in self._postponedSyms.items():
-            parents, symProps = val
+        # registering a symbol may in turn unblock other postponed symbols
+        # that come earlier in the dict, so keep going until nothing moves
+        regedSyms = True
 
-            if self.allParentsExists(parents):
-                self._out[sym] = symProps
-                self._symsOrder.append(sym)
-                regedSyms.append(sym)
+        while regedSyms:
+            regedSyms = []
+            for sym, val in self._postponedSyms.items():
+                parents, symProps = val
 
-        for sym in regedSyms:
-            self._postponedSyms.pop(sym)
+                if self.allParentsExists(parents):
+                    self._out[sym] = symProps
+                    self._symsOrder.append(sym)
+                    regedSyms.append(sym)
+
+            for sym in regedSyms:
+                self._postponedSyms.pop(sym)
 
         # Clause handlers
 
